@@ -184,7 +184,7 @@ class CGenerator:
         #
         s = n.name if no_type else self._generate_decl(n)
         if n.bitsize:
-            s += " : " + self.visit(n.bitsize)
+            s += " : " + self._visit_expr(n.bitsize)
         if n.init:
             s += " = " + self._visit_expr(n.init)
         return s
@@ -224,7 +224,7 @@ class CGenerator:
         return self._generate_struct_union_enum(n, name="enum")
 
     def visit_Alignas(self, n: c_ast.Alignas) -> str:
-        return "_Alignas({})".format(self.visit(n.alignment))
+        return "_Alignas({})".format(self._visit_expr(n.alignment))
 
     def visit_Enumerator(self, n: c_ast.Enumerator) -> str:
         if not n.value:
@@ -236,7 +236,7 @@ class CGenerator:
             return "{indent}{name} = {value},\n".format(
                 indent=self._make_indent(),
                 name=n.name,
-                value=self.visit(n.value),
+                value=self._visit_expr(n.value),
             )
 
     def visit_FuncDef(self, n: c_ast.FuncDef) -> str:
@@ -341,7 +341,7 @@ class CGenerator:
 
     def visit_StaticAssert(self, n: c_ast.StaticAssert) -> str:
         s = "_Static_assert("
-        s += self.visit(n.cond)
+        s += self._visit_expr(n.cond)
         if n.message:
             s += ","
             s += self.visit(n.message)
@@ -354,7 +354,7 @@ class CGenerator:
         return s
 
     def visit_Case(self, n: c_ast.Case) -> str:
-        s = "case " + self.visit(n.expr) + ":\n"
+        s = "case " + self._visit_expr(n.expr) + ":\n"
         for stmt in n.stmts:
             s += self._generate_stmt(stmt, add_indent=True)
         return s
@@ -389,7 +389,7 @@ class CGenerator:
             if isinstance(name, c_ast.ID):
                 s += "." + name.name
             else:
-                s += "[" + self.visit(name) + "]"
+                s += "[" + self._visit_expr(name) + "]"
         s += " = " + self._visit_expr(n.expr)
         return s
 
@@ -527,7 +527,7 @@ class CGenerator:
                             if modifier.dim_quals:
                                 nstr += " ".join(modifier.dim_quals) + " "
                             if modifier.dim is not None:
-                                nstr += self.visit(modifier.dim)
+                                nstr += self._visit_expr(modifier.dim)
                             nstr += "]"
                         case c_ast.FuncDecl():
                             if i != 0 and isinstance(modifiers[i - 1], c_ast.PtrDecl):
